@@ -175,7 +175,15 @@ def work(comm, c, fields, eta):
             a, b = pairs[0]
         else:
             a, b = [p[0] for p in pairs], [p[1] for p in pairs]
+        # the caller may hold axis / fixValue as numpy integer arrays (or tuples) and use the same objects for both requests
+        if pairs and (qi + c['sched_seed']) % 3 == 1:
+            a, b = np.array([p[0] for p in pairs]), np.array([p[1] for p in pairs])
+        elif pairs and len(pairs) > 1 and (qi + c['sched_seed']) % 3 == 2:
+            a, b = tuple(a), tuple(b)
+        a0, b0 = (np.array(a, copy=True), np.array(b, copy=True)) if pairs else (None, None)
         out['minmax'].append([fx(g.getMin(dr, a, b)), fx(g.getMax(dr, a, b))])
+        if pairs and not (np.array_equal(a0, a) and np.array_equal(b0, b) and type(b) in (int, list, tuple, np.ndarray)):
+            out.setdefault('args_modified', []).append([qi, type(b).__name__, np.asarray(b0).tolist(), np.asarray(b).tolist()])
     if c['kind'] == 'empty':
         return out
     # phi as fullSimulation.py builds it
@@ -493,6 +501,10 @@ def compare(chk, c, res, answers, tags, fields):
                   'Grid.get%s(drawingRank=%d, axis/fixValue=%r) in layout %s on grid %r: per-rank results %r, expected %s on '
                   'the drawing rank only (global field %s over the slice = %d)' % (m.capitalize(), dr, pairs, nm, c['grid'],
                                                                               [str(x) for x in got], orc, m, orc))
+            if mi == 0 and any(e[0] == qi for rk in range(nranks) for e in ranks[rk].get('args_modified', [])):
+                e = [e for rk in range(nranks) for e in ranks[rk].get('args_modified', []) if e[0] == qi][0]
+                v('grid.getMin:arguments-modified', 'Grid.getMin/getMax(drawingRank=%d, axis/fixValue=%r held as %s) in layout %s on grid %r changed the caller\'s '
+                  'fixValue from %r to %r' % (dr, pairs, e[1], nm, c['grid'], e[2], e[3]))
             if mred != orc:
                 v('model:ext', 'model %s %r, oracle %d (query %r layout %s); per-rank model values %r' % (m, mred, orc, pairs, nm, mloc), True)
     if c['kind'] == 'empty':
